@@ -7,6 +7,8 @@ proofs rest on SkNet/Lemmas/Modularity*.lean.
 -/
 import SkNet.Lemmas.ModularityMetric
 import SkNet.Lemmas.ModularityComponents
+import SkNet.Lemmas.ModularityPre
+import SkNet.Lemmas.ModularityFitComp
 
 namespace SkNet.C06
 open SkNet SkNet.Modularity
@@ -145,5 +147,74 @@ theorem optimize_core_within_components (g : Graph Rat) (hg : GraphOK g) (res to
     WithinComp g labels' :=
   let ⟨_, _, h3, _⟩ := optimizeCore_spec g hg res tol K fuel st hinv labels' inc h
   h3.withinComp hg.cols hinv.len hw
+
+/-! ## 4. aggregation and the whole fit -/
+
+/-- **aggregate_preserves_Q.**  For a well-formed level and any label vector of its nodes, `Q` of a partition
+    `c'` of the aggregate graph (`_aggregate`: `MᵀAM`, `Mᵀw`) is `Q` of the composed partition `c' ∘ labels` of
+    the graph that was aggregated; in particular total weight and node weights are preserved. -/
+theorem aggregate_preserves_Q (labels : List Nat) (lv : Level) (hlv : LevelOK lv) (hlen : labels.length = lv.n)
+    (γ : Rat) (c' : Nat → Nat) :
+    Q (aggregate labels lv).n (adj (aggregate labels lv).graph) (aggregate labels lv).graph.outW
+        (aggregate labels lv).graph.inW γ c'
+      = Q lv.n (adj lv.graph) lv.graph.outW lv.graph.inW γ (fun u => c' (labOf labels u)) :=
+  aggregate_Q labels lv hlv hlen γ c'
+
+/-- the aggregate of a well-formed level (symmetric, indices in range) is well-formed -/
+theorem aggregate_wellformed (labels : List Nat) (lv : Level) (hlv : LevelOK lv) (hlen : labels.length = lv.n) :
+    LevelOK (aggregate labels lv) :=
+  aggregate_levelOK labels lv hlv hlen
+
+/-- **objective_eq_modularity.**  On the level built by `_pre_processing` (normalised symmetric adjacency, node
+    weights of the kind) the generalised objective `Q` the kernels optimise equals the documented modularity of
+    the kind (Dugué / Newman / Potts) of the input matrix, for every partition and resolution. -/
+theorem objective_eq_modularity (kind : Kind) (nRow nCol nnz : Nat) (B : Nat → Nat → Rat) (fb : Bool) (lv : Level)
+    (h : preProcess kind nRow nCol nnz B fb = .ok lv) (γ : Rat) (c : Nat → Nat) :
+    LevelOK lv ∧
+    Q lv.n (adj lv.graph) lv.graph.outW lv.graph.inW γ c
+      = objective kind (kindAdj kind nRow nCol B fb).1 (kindAdj kind nRow nCol B fb).2 γ c := by
+  obtain ⟨w, hw, rfl⟩ := preProcess_ok _ _ _ _ _ _ _ h
+  exact ⟨symLevel_levelOK _ _ _ _, kindWeights_objective kind _ _ w hw γ c⟩
+
+/-- **louvain_never_worse.**  Whenever `Louvain.fit` returns (any graph, kind, resolution, tolerances, aggregation
+    limit; exact arithmetic), the objective of the kind — the documented formula on the input matrix — of the
+    returned labels equals that of the all-singletons partition plus the sum of the logged increases, every
+    logged increase is non-negative, hence the returned partition is at least as good as the singletons. -/
+theorem louvain_never_worse (kind : Kind) (res tolOpt tolAgg : Rat) (nAgg : Int) (nRow nCol nnz : Nat)
+    (B : Nat → Nat → Rat) (fb : Bool) (coreFuel : Nat) (out : FitOut)
+    (h : louvainFit kind res tolOpt tolAgg nAgg nRow nCol nnz B fb coreFuel = .ok (some out)) :
+    objective kind (kindAdj kind nRow nCol B fb).1 (kindAdj kind nRow nCol B fb).2 res (labOf out.labels)
+      = objective kind (kindAdj kind nRow nCol B fb).1 (kindAdj kind nRow nCol B fb).2 res (fun u => u)
+        + out.increases.sum ∧
+    (∀ x ∈ out.increases, 0 ≤ x) ∧
+    objective kind (kindAdj kind nRow nCol B fb).1 (kindAdj kind nRow nCol B fb).2 res (fun u => u)
+      ≤ objective kind (kindAdj kind nRow nCol B fb).1 (kindAdj kind nRow nCol B fb).2 res (labOf out.labels) := by
+  obtain ⟨-, h2, h3⟩ := louvainFit_spec kind res tolOpt tolAgg nAgg nRow nCol nnz B fb coreFuel out h
+  refine ⟨h2, h3, ?_⟩
+  rw [h2]
+  have : 0 ≤ out.increases.sum := list_sum_nonneg _ h3
+  linarith
+
+/-- **clusters_within_components (Louvain.fit).**  Whenever `Louvain.fit` returns, two nodes with the same label
+    are joined by a chain of non-zero weights of the matrix the kind works on (the input matrix, or its block
+    form for a bipartite graph), through every aggregation: no cluster contains nodes of two different connected
+    components. -/
+theorem louvain_clusters_within_components (kind : Kind) (res tolOpt tolAgg : Rat) (nAgg : Int)
+    (nRow nCol nnz : Nat) (B : Nat → Nat → Rat) (fb : Bool) (coreFuel : Nat) (out : FitOut)
+    (h : louvainFit kind res tolOpt tolAgg nAgg nRow nCol nnz B fb coreFuel = .ok (some out)) :
+    ∀ u v, u < (kindAdj kind nRow nCol B fb).1 → v < (kindAdj kind nRow nCol B fb).1 →
+      labOf out.labels u = labOf out.labels v →
+      Connected (kindAdj kind nRow nCol B fb).1 (kindAdj kind nRow nCol B fb).2 u v :=
+  louvainFit_comp kind res tolOpt tolAgg nAgg nRow nCol nnz B fb coreFuel out h
+
+/-- non-vacuity: two triangles joined by an edge (6 nodes, unit weights, Dugué, γ = 1, tolerances 0): the fit returns
+    the two triangles after two aggregations, with logged increases 26/49 and 0
+    (objective 5/14 against −17/98 for the singletons) -/
+example :
+    (louvainFit .dugue 1 0 0 (-1) 6 6 14
+      (fun i j => if (i, j) ∈ [(0,1),(1,0),(0,2),(2,0),(1,2),(2,1),(3,4),(4,3),(3,5),(5,3),(4,5),(5,4),(2,3),(3,2)]
+        then 1 else 0) false 100).toOption.join.map (fun o => (o.labels, o.increases))
+      = some ([0, 0, 0, 1, 1, 1], [26/49, 0]) := by
+  decide +kernel
 
 end SkNet.C06
